@@ -488,6 +488,7 @@ func CheckC07(e *Env) (int, error) {
 	envFile := filepath.Join(e.Scr, "envfile.bin")
 	os.WriteFile(envFile, []byte(strings.Repeat("fixed content, not random\n", 200)), 0644)
 	envRuns := 0
+	idleN, idleMs := 0, int64(0)
 	envVals := append([]string{"1", "true", "/dev/zero", envFile, "0"}, instr.EnvValueCandidates(e.RepoCopy())...)
 	for _, name := range envNames {
 		for _, val := range envVals {
@@ -536,6 +537,12 @@ func CheckC07(e *Env) (int, error) {
 		addMap(tot.fired, st.fired)
 		tot.realOutputs = append(tot.realOutputs, st.realOutputs...)
 		totalOps += len(cp.Hist.Ops)
+		for _, op := range cp.Hist.Ops {
+			if op.J != 0 {
+				idleN++
+				idleMs += op.J
+			}
+		}
 		if f := cp.Hist.Ops[0]; f.K == "new" {
 			firstCalls[fmt.Sprintf("%s/%d/%d", cp.Mode, f.N, f.Lang)] = true
 		}
@@ -573,7 +580,10 @@ func CheckC07(e *Env) (int, error) {
 		"runs":                                   len(plans),
 		"worker_processes":                       tot.procs,
 		"sim_steps_total":                        totalOps,
-		"sim_time_note":                          "no clock in the system; simulated time is counted in history operations",
+		"sim_time_note":                          "the unchanged tree reads no clock, so simulated time is counted in history operations; a tree that imports \"time\" gets Now/Since/Until from the clock seam, which the simulator moves forward in jumps (idle periods of 50 ms to 400 d before calls)",
+		"clock_seam_files":                       e.ClockFiles("go"),
+		"simulated_idle_periods":                 idleN,
+		"simulated_idle_ms_total":                idleMs,
 		"identity_rereads":                       tot.idChecks,
 		"newmnemonic_success":                    tot.newOK,
 		"newmnemonic_failed_on_fault":            tot.newFail,
